@@ -452,12 +452,18 @@ func genCase(rng *rand.Rand, n int, seed int64, pf Profile) *CaseDesc {
 				t := pick(rng, append(cloneInts(pool), cError))
 				if !contains(pending, t) {
 					rets = append(rets, t)
-				} else if chance(rng, 0.25) {
-					// overrides a value returned from below without receiving it: only valid with AllowReturnShadowing
+				}
+			}
+			if len(pending) > 0 && chance(rng, 0.06) {
+				// overrides a value returned from below without receiving it: only valid with AllowReturnShadowing on
+				// THIS wrapper
+				t := pick(rng, pending)
+				if !contains(recv, t) {
 					rets = append(rets, t)
-					if chance(rng, 0.5) {
+					switch x := rng.Float64(); {
+					case x < 0.4:
 						p.ShadowOK = append(p.ShadowOK, t)
-					} else if chance(rng, 0.6) {
+					case x < 0.75:
 						// the annotation sits on the LOWEST returner of t instead: that does not license this override
 						for j := len(c.Provs) - 1; j > i; j-- {
 							q := c.Provs[j]
